@@ -81,3 +81,49 @@ Definition check_tocos (c : float * float) : bool := f_close9 (to_cos FS (fst c)
 Definition check_compose (c : list float * list float * list float) : bool :=
   let '(t1, t2, expected) := c in
   match compose_transform FS t1 t2 with Some l => fl_eqb l expected | None => false end.
+
+(* (h) develop_lattice: filltr of the cell, its TRCL list, translation of the
+   element, filltr given to the element *)
+Definition check_lattice_filltr (c : list float * list (list float) * V3 float * list float) : bool :=
+  let '(filltr, trcls, transl, expected) := c in
+  match lattice_filltr FS filltr trcls transl with Some l => fl_eqb l expected | None => false end.
+
+(* call-site condition of compose_transform: the second argument is a pure
+   translation (matrix exactly the identity) *)
+Definition check_second_is_translation (t2 : list float) : bool :=
+  match t2 with
+  | _ :: _ :: _ :: m => list_eqb PrimFloat.eqb m [1; 0; 0; 0; 1; 0; 0; 0; 1]%float
+  | _ => false
+  end.
+
+(* (i) apply_trcl / pot_transform on a cell expression *)
+Definition gop_eqb (a b : gop) : bool := match a, b with GInter, GInter | GUnion, GUnion => true | _, _ => false end.
+Fixpoint gtree_eqb (a b : gtree) : bool :=
+  match a, b with
+  | GSurf x, GSurf y | GCell x, GCell y | GCompl x, GCompl y => Z.eqb x y
+  | GOp o1 l1, GOp o2 l2 =>
+      gop_eqb o1 o2 &&
+      (fix go (l1 l2 : list gtree) : bool :=
+         match l1, l2 with
+         | [], [] => true
+         | x :: r, y :: s => gtree_eqb x y && go r s
+         | _, _ => false
+         end) l1 l2
+  | _, _ => false
+  end.
+Definition mkind_eqb (a b : mkind) : bool :=
+  match a, b with
+  | KP, KP | KS, KS | KC, KC | KK, KK | KT, KT | KSQ, KSQ | KGQ, KGQ => true
+  | _, _ => false
+  end.
+Definition entry_eqb : list (msurf float * Z) -> list (msurf float * Z) -> bool :=
+  list_eqb (pair_eqb (fun a b => mkind_eqb (mk a) (mk b) && msurf_eqb a b) Z.eqb).
+Definition check_pot (c : list (list float) * gtree * Z * list (Z * list (msurf float * Z))
+                         * (gtree * Z * list (Z * list (msurf float * Z)))) : bool :=
+  let '(trs, t, k0, tb, (t', k1, news)) := c in
+  match apply_trcl FS trs t (k0, tb) with
+  | Ok (t2, (k2, tb2)) =>
+      gtree_eqb t2 t' && Z.eqb k2 k1
+      && list_eqb (pair_eqb Z.eqb entry_eqb) (firstn (List.length news) tb2) news
+  | Err _ => false
+  end.
